@@ -124,6 +124,21 @@ def socket_ios(em_a, em_b):
     return SocketIO(c, em_a), SocketIO(s, em_b)
 
 
+def _bounded(fn, timeout: float) -> bool:
+    """run fn() in a helper thread; give up waiting after `timeout` seconds"""
+
+    def run():
+        try:
+            fn()
+        except Exception:
+            pass
+
+    t = threading.Thread(target=run, daemon=True)
+    t.start()
+    t.join(timeout)
+    return not t.is_alive()
+
+
 class Pair:
     """A Gateway and a WorkerGateway connected in-process."""
 
@@ -182,12 +197,12 @@ class Pair:
             ok = False
         if not self.worker_done.wait(timeout):
             ok = False
+        # write ends first (that is what makes the other side's reader see EOF); closing a read end blocks as long
+        # as another thread sits in read() on it, so that is done aside and never waited for long
         for io in (self.raw_a, self.raw_b):
-            for m in ("close_read", "close_write"):
-                try:
-                    getattr(io, m)()
-                except Exception:
-                    pass
+            _bounded(io.close_write, 1.0)
+        for io in (self.raw_a, self.raw_b):
+            _bounded(io.close_read, 1.0)
         try:
             import atexit
 
